@@ -68,3 +68,12 @@ func VerifC20SamePlacement(a, b [5]int) bool {
 	return samePlacement(&placement{id: uint64(a[0]), col: a[1], row: a[2], w: a[3], h: a[4]},
 		&placement{id: uint64(b[0]), col: b[1], row: b[2], w: b[3], h: b[4]})
 }
+
+// VerifC20State reports whether the image is still being encoded by the goroutine started by
+// Resize and, once it is not, whether encoded data is waiting to be uploaded.
+func (k *KittyImage) VerifC20State() (encoding, pendingUpload bool) {
+	if atomicLoad(&k.encoding) {
+		return true, false
+	}
+	return false, !atomicLoad(&k.uploaded) && k.buf.Len() > 0
+}
